@@ -113,11 +113,18 @@ func validateEntSigners(i interface{}) error {
 		return fmt.Errorf("must have at least one signer")
 	}
 
+	// signers are accounts: the same account listed twice (in whatever spelling of its address)
+	// is one signer, but would be counted twice against MinAccepts and in the reject threshold
+	seen := make(map[string]bool, len(entSigners))
 	for _, authAddr := range entSigners {
-		_, err := sdk.AccAddressFromBech32(authAddr)
+		addr, err := sdk.AccAddressFromBech32(authAddr)
 		if err != nil {
 			return fmt.Errorf("invalid address %s: %s", authAddr, err)
 		}
+		if seen[string(addr)] {
+			return fmt.Errorf("duplicate signer %s", authAddr)
+		}
+		seen[string(addr)] = true
 	}
 
 	return nil
